@@ -13,6 +13,13 @@ const (
 // VerifLatchListCount is the node count per slot from which acquireSlot starts recycling.
 const VerifLatchListCount = latchListCount
 
+// VerifExpireMS is expireDuration in milliseconds (the physical part of a TSO timestamp counts ms).
+const VerifExpireMS = int64(expireDuration / 1e6)
+
+// VerifRecycle is the global Latches.recycle(currentTS) that LatchesScheduler.run starts in a
+// goroutine of its own.
+func VerifRecycle(l *Latches, currentTS uint64) { l.recycle(currentTS) }
+
 func VerifGenLock(l *Latches, startTS uint64, keys [][]byte) *Lock { return l.genLock(startTS, keys) }
 func VerifAcquire(l *Latches, lock *Lock) int                      { return int(l.acquire(lock)) }
 func VerifAcquireSlot(l *Latches, lock *Lock) int                  { return int(l.acquireSlot(lock)) }
